@@ -112,6 +112,26 @@ func c18Build(t *testing.T, wrapKind string) *c18Setup {
 	req := &logical.Request{ClientToken: s.Root, Connection: &logical.Connection{RemoteAddr: "127.0.0.1"},
 		WrapInfo: &logical.RequestWrapInfo{TTL: time.Hour}}
 	switch wrapKind {
+	case "entitysecret":
+		// the wrap is requested by a token bound to an identity entity whose OWN policies
+		// (identity policies) grant the secrets mount: the wrapping token must not inherit
+		// anything of that identity
+		s.Rec.mu.Lock()
+		s.Rec.LoginAuth = func(*logical.Request) *logical.Auth {
+			return &logical.Auth{Policies: []string{"p18"}, Alias: &logical.Alias{Name: "e18"}, LeaseOptions: logical.LeaseOptions{TTL: time.Hour}}
+		}
+		s.Rec.mu.Unlock()
+		lr, lerr := s.Req("", logical.UpdateOperation, "auth/ra/login", map[string]interface{}{})
+		s.Rec.mu.Lock()
+		s.Rec.LoginAuth = nil
+		s.Rec.mu.Unlock()
+		if !OK(lr, lerr) || lr == nil || lr.Auth == nil || lr.Auth.EntityID == "" {
+			t.Fatalf("harness: entity-bound login failed: %s", ErrText(lr, lerr))
+		}
+		s.WritePolicy("p18e", `path "rec/kv/*" { capabilities = ["read", "list", "update"] }`)
+		s.Must(s.Req(s.Root, logical.UpdateOperation, "identity/entity/id/"+lr.Auth.EntityID, map[string]interface{}{"policies": []string{"p18e"}}))
+		req.ClientToken = lr.Auth.ClientToken
+		req.Operation, req.Path = logical.ReadOperation, "rec/kv/a"
 	case "nssecret":
 		req.Operation, req.Path = logical.ReadOperation, "ns1/rec/kv/a"
 	case "secret":
@@ -366,6 +386,24 @@ func TestVerifC18(t *testing.T) {
 	// hop lookup of the newest token still reports the path that created the RESPONSE, the
 	// older tokens disclose nothing and are refused, and the newest one yields the payload
 	// exactly once.
+	if i, _ := vout.Shard(); i == 2%16 && (os.Getenv("VERIF_PART") == "" || os.Getenv("VERIF_PART") == "R") {
+		// ---- G: "the token grants nothing beyond retrieving that payload" when the wrap was
+		// requested by a token bound to an identity entity whose own policies grant the mount
+		st := get("entitysecret")
+		s := Boot(t, st.img)
+		art := map[string]interface{}{"wrap": "entitysecret"}
+		// (one presentation only: a wrapping token has a single use, a refused request spends it)
+		for _, k := range []string{"lookup", "misuse"} {
+			r := c18Do(s, st, k, st.wrapTok)
+			res.Add("transitions", 1)
+			if k == "misuse" && r.ok {
+				res.Violate("c18:wrapping-token-granted-access", fmt.Sprintf("%v: the wrapping token of a response requested by an entity-bound token was accepted on rec/kv/a (the requester's identity policies grant it)", art), art)
+			}
+		}
+		res.Add("executions", 1)
+		res.Distinct("nontrivial", "G|entitysecret")
+		s.Close()
+	}
 	if os.Getenv("VERIF_PART") == "" || os.Getenv("VERIF_PART") == "R" {
 		rcount := 0
 		hopsMax := 3
